@@ -333,7 +333,7 @@ func explore(t *testing.T, e Engine, spec Spec, enc *json.Encoder, w *bufio.Writ
 			sum.PerSeedHash[fmt.Sprint(seed)] = res.Hash + ":" + res.Sig + ":" + res.Outcome
 		}
 		bad := len(res.Violations) > 0 || res.Outcome == "harness-panic"
-		if res.Outcome == "budget" && kept < spec.KeepOK+3 {
+		if !bad && res.Outcome == "budget" && kept < spec.KeepOK+3 {
 			kept++
 			res2 := *res
 			res2.Tape = nil
